@@ -335,6 +335,69 @@ def run_find_scu(fn):
         yield fn, {'scenario': si}, bad
 
 
+def run_c_find():
+    """the one-call wrapper pynetdicom2.c_find with ClientAE replaced by a recording fake (no sockets)"""
+    import pynetdicom2
+    from pynetdicom2 import applicationentity
+    real = applicationentity.ClientAE
+    for si, results in enumerate([[], [(None, 0)], [('d1', 0xFF00), ('d2', 0xFF01), (None, 0)], [('', 0xFF00), (None, 0xA700)]]):
+        for root in (sopclass.PATIENT_ROOT_FIND_SOP_CLASS, sopclass.STUDY_ROOT_FIND_SOP_CLASS):
+            log = []
+
+            class Asce(object):
+                def get_scu(self, sop):
+                    log.append(('get_scu', sop))
+                    return lambda ds, msg_id: (log.append(('service', ds)), iter(list(results)))[1]
+
+            class CM(object):
+                def __enter__(self):
+                    log.append(('enter',))
+                    return Asce()
+
+                def __exit__(self, et, ev, tb):
+                    log.append(('exit', et))
+                    return False
+
+            class FakeClientAE(object):
+                def __init__(self, aet, *a, **k):
+                    log.append(('ClientAE', aet))
+
+                def add_scu(self, svc, *a, **k):
+                    log.append(('add_scu', svc))
+                    return self
+
+                def request_association(self, remote):
+                    log.append(('request_association', remote))
+                    return CM()
+            applicationentity.ClientAE = FakeClientAE
+            bad = []
+            try:
+                got = list(pynetdicom2.c_find({'aet': 'REMOTE'}, 'LOCAL', 'query', root))
+            except Exception as e:   # noqa
+                got = None
+                bad.append('noexc: %r' % e)
+            finally:
+                applicationentity.ClientAE = real
+            if got is not None:
+                if len(got) != len(results):
+                    bad.append('one-yield-per-result: %d yielded for %d results' % (len(got), len(results)))
+                elif got != results:
+                    bad.append('yields-the-result-unchanged')
+                if [e for e in log if e[0] == 'get_scu'] != [('get_scu', root)]:
+                    bad.append('service-looked-up-for-the-requested-root')
+                if [e for e in log if e[0] == 'service'] != [('service', 'query')]:
+                    bad.append('query-handed-to-the-service-once')
+                if [e for e in log if e[0] == 'add_scu'] != [('add_scu', sopclass.qr_find_scu)]:
+                    bad.append('configures-the-find-user-service')
+                if [e for e in log if e[0] == 'ClientAE'] != [('ClientAE', 'LOCAL')]:
+                    bad.append('local-ae-title')
+                if [e for e in log if e[0] == 'request_association'] != [('request_association', {'aet': 'REMOTE'})]:
+                    bad.append('one-association-to-the-remote-entity')
+                if not log or log[-1] != ('exit', None):
+                    bad.append('association-left-normally-after-the-last-result')
+            yield 'c_find', {'results': results, 'root': root}, bad
+
+
 def run_commitment():
     for which, outcome in itertools.product(('n_action', 'n_event_report'), ('ok', 'raise')):
         ae = FakeAE()
@@ -388,7 +451,8 @@ def main():
     req = json.loads(sys.stdin.read() or '{}')
     want = req.get('provider')
     runs = [run_echo(), run_store(), run_find('qr_find_scp'), run_find('modality_work_list_scp'), run_move(),
-            run_get(), run_find_scu('qr_find_scu'), run_find_scu('modality_work_list_scu'), run_commitment()]
+            run_get(), run_find_scu('qr_find_scu'), run_find_scu('modality_work_list_scu'), run_commitment(),
+            run_c_find()]
     failures = []
     n = 0
     for gen in runs:
